@@ -1,0 +1,24 @@
+//go:build verif
+
+package transport
+
+import "sync/atomic"
+
+// VerifYieldFunc is installed by the verification harness (build tag verif only); it is called at
+// named points that lie between two critical sections.
+var verifYieldFn atomic.Pointer[func(point string, id string)]
+
+// SetVerifYield installs (or, with nil, removes) the yield callback.
+func SetVerifYield(fn func(point string, id string)) {
+	if fn == nil {
+		verifYieldFn.Store(nil)
+		return
+	}
+	verifYieldFn.Store(&fn)
+}
+
+func verifYield(point string, id string) {
+	if fn := verifYieldFn.Load(); fn != nil {
+		(*fn)(point, id)
+	}
+}
